@@ -45,6 +45,8 @@ static struct {
 	char buf[4096U];
 	size_t bi;
 	int fd;
+	/* sticky, set when a write() went wrong, see fderror() */
+	int err;
 } fd_aux;
 
 static ssize_t
@@ -56,8 +58,21 @@ fdflush(void)
 	     twr < tot &&
 		     (nwr = write(fd_aux.fd, fd_aux.buf + twr, tot - twr)) > 0;
 	     twr += nwr);
+	if (UNLIKELY(twr < (ssize_t)fd_aux.bi)) {
+		/* data got lost */
+		fd_aux.err = 1;
+	}
 	fd_aux.bi = 0U;
 	return twr;
+}
+
+static __attribute__((unused)) int
+fderror(void)
+{
+/* return whether data got lost since the last call, and reset */
+	int res = fd_aux.err;
+	fd_aux.err = 0;
+	return res;
 }
 
 static int
